@@ -18,7 +18,7 @@ git checkout -- src
 demo_without=$(cargo test --offline --test seed_demo 2>&1 | grep -E "test result|error(\[|:)" | head -1)
 echo "$P/$N: suite-with-patch: $suite | demo-with: $demo_with | demo-without: $demo_without"
 ok=0
-if echo "$suite" | grep -q "49 passed; 0 failed" && echo "$demo_with" | grep -qE "FAILED|failed; [1-9]|[1-9][0-9]* failed" && echo "$demo_without" | grep -q "ok\." ; then ok=1; fi
+if echo "$suite" | grep -q "49 passed; 0 failed" && echo "$demo_with" | grep -qE "FAILED|failed; [1-9]|[1-9][0-9]* failed|error: test failed" && echo "$demo_without" | grep -q "ok\." ; then ok=1; fi
 # a demo that aborts (no test result line) also counts as failing with the change
 if [ $ok = 0 ] && echo "$suite" | grep -q "49 passed; 0 failed" && [ -z "$demo_with" ] && echo "$demo_without" | grep -q "ok\."; then ok=1; fi
 cd /; git -C /repo worktree remove --force $WT
